@@ -219,6 +219,14 @@ class BaseNode(Node):
             node.value_raw = nodes
         else:                        # node import
             node.value_raw = nodes[0].value_raw
+            if node.value_slice and nodes[0].value is not None and nodes[0].value.value is not None:
+                # the slice is applied here, once, to the current value of the referenced node;
+                # the host then holds (and hands on to later references) the sliced value only
+                value = self.slice_value(list(node.value_slice), nodes[0].value)
+                if node.keyword!='mod' and not node.dimension and not np.isscalar(value):
+                    raise Exception("Array value set to scalar node:",node.code,value)
+                node.value_raw = self._raw_from_value(value)
+                node.value_slice = None
             if not node.units_raw:
                 node.units_raw = nodes[0].units_raw
         
